@@ -512,3 +512,43 @@ MUTANTS += [
             if (BigInt<bits>::compare(this->val, p) >= 0 || carry) {""", """            bool carry = this->val.add(a.val, b.val);
             if (carry || !(BigInt<bits>::compare(this->val, p) < 0)) {""")]),
 ]
+MUTANTS += [
+ dict(name='c03-spec-swaps-a-b', prop='C03', expect='spec|forward',
+      edits=[('include/core/arch/x86_64/bigint.hpp', 'return embedded_pairing_core_arch_x86_64_bigint_384_subtract(this, &a, &b);', 'return embedded_pairing_core_arch_x86_64_bigint_384_subtract(this, &b, &a);')]),
+ dict(name='c03-asm-skips-top-word-on-copy-path', prop='C03', expect='asm|mustwrite',
+      edits=[('src/core/arch/x86_64/bigint.s', """embedded_pairing_core_arch_x86_64_bigint_384_multiply2:
+    movq (%rsi), %rax
+    add %rax, %rax
+    movq %rax, (%rdi)
+
+    mul2carry64 8
+    mul2carry64 16
+    mul2carry64 24
+    mul2carry64 32
+    mul2carry64 40
+""", """embedded_pairing_core_arch_x86_64_bigint_384_multiply2:
+    movq (%rsi), %rax
+    add %rax, %rax
+    movq %rax, (%rdi)
+
+    mul2carry64 8
+    mul2carry64 16
+    mul2carry64 24
+    mul2carry64 32
+    movq 40(%rsi), %rax
+    adc %rax, %rax
+""")]),
+ dict(name='c03-asm-carry-not-returned', prop='C03', expect='asm|retval',
+      edits=[('src/core/arch/x86_64/bigint.s', """    subborrow64 40
+
+    sbb %rax, %rax
+    neg %rax
+    ret""", """    subborrow64 40
+
+    ret""")]),
+ dict(name='c03-dispatch-wrong-pair', prop='C03', expect='dispatch|runtime_bigint_768_square',
+      edits=[('src/core/arch/x86_64/runtime.cpp', 'cpu_supports_bmi2_adx ? embedded_pairing_core_arch_x86_64_bmi2_adx_bigint_768_square : embedded_pairing_core_arch_x86_64_bigint_768_square;',
+              'cpu_supports_bmi2_adx ? embedded_pairing_core_arch_x86_64_bmi2_adx_bigint_768_square : embedded_pairing_core_arch_x86_64_bmi2_adx_bigint_768_square;')]),
+ dict(name='c03-spec-adds-restrict', prop='C03', expect='spec|signature',
+      edits=[('include/core/arch/x86_64/bigint.hpp', 'inline bool BigInt<384>::add(const BigInt<384>& a, const BigInt<384>& __restrict b) {', 'inline bool BigInt<384>::add(const BigInt<384>& __restrict a, const BigInt<384>& __restrict b) {')]),
+]
